@@ -17,6 +17,7 @@ BUDGET = {"quick": 100, "thorough": 600}
 
 def cases(tier: str):
     q = tier == "quick"
+    yield dict(kind="nested")
     for n in (1, 2, 3, 4):
         for es in shapes(n):
             valid = [tuple(s) for s in down_closed_sets(n, es)]
@@ -66,6 +67,59 @@ def build_clause(acc, c):
             if refused != want_refused:
                 acc.violation(V("debug_dependency_check", f"debug nodes {dbg} on shape {es4}: builder {'refused' if refused else 'accepted'}, reference says {'refuse' if want_refused else 'accept'}",
                                 refused=refused), dict(c, dbg=list(dbg), es4=es4), (), None, p.source())
+
+
+NESTED_SRC = '''
+from tawazi import xn, dag
+@xn(debug=True)
+def dbg(x):
+    return (x, x)
+@xn
+def prod(x, y=1):
+    return x
+@dag
+def inner(a, b=2):
+    return prod(a, b)
+@dag
+def mid(t):
+    return inner(t)
+'''
+NESTED_BODIES = {
+    "arg": "    d = dbg(x)\n    return inner(d)",
+    "second_arg": "    d = dbg(x)\n    return inner(x, d)",
+    "indexed": "    d = dbg(x)\n    return inner(d[0])",
+    "flag": "    d = dbg(x)\n    return inner(x, twz_active=d)",
+    "two_levels": "    d = dbg(x)\n    return mid(d)",
+    "debug_chain": "    d = dbg(x)\n    e = dbg(d)\n    return inner(e[1])",
+}
+
+
+def nested_clause(acc, c):
+    """a debug node's value must not reach production nodes through a DAG called inside the DAG either"""
+    from tawazi.errors import TawaziBaseException
+
+    from ..build import exec_source
+    acc.cases += 1
+    for name, body in NESTED_BODIES.items():
+        src = NESTED_SRC + "@dag\ndef outer(x):\n" + body + "\n"
+        acc.evaluations += 1
+        try:
+            exec_source(src)
+            refused = False
+        except (TawaziBaseException, ValueError):
+            refused = True
+        acc.mark_nontrivial(("nested", name))
+        if not refused:
+            acc.violation(V("debug_dependency_check", f"a debug node's result passed to a nested DAG ({name}) was accepted by the builder", refused=False, nested=name),
+                          dict(c, nested=name), (), None, src)
+    # control: the same shapes with a production node instead of the debug node are accepted
+    for name, body in NESTED_BODIES.items():
+        src = NESTED_SRC.replace("@xn(debug=True)", "@xn") + "@dag\ndef outer(x):\n" + body + "\n"
+        acc.evaluations += 1
+        try:
+            exec_source(src)
+        except Exception as e:  # noqa: BLE001
+            acc.violation(V("nested_build_refused", f"control DAG ({name}, no debug node) was refused: {e!r}", nested=name), dict(c, nested=name), (), None, src)
 
 
 def sel_case(acc, c):
@@ -142,7 +196,9 @@ def setup_case(acc, c):
 
 
 def run_one(acc, c):
-    if c["kind"] == "build":
+    if c["kind"] == "nested":
+        nested_clause(acc, c)
+    elif c["kind"] == "build":
         build_clause(acc, c)
     elif c["kind"] == "sel":
         sel_case(acc, c)
